@@ -336,3 +336,71 @@ class C04FPKernel(Harness):
         yield "value_inside_a_bin", r is not None and isinstance(r, int) and 0 <= r < n
         yield "total_is_one", obs["total"] == 1
         yield "nothing_missed", obs["under"] == 0 and obs["over"] == 0
+
+
+
+@register
+class C04Derived(Harness):
+    prop = "C04"
+    group = "derived"
+    stubs = ("log10 / ln as uninterpreted functions with order-preserving axioms (pretty widths)",)
+    bounds_doc = "non-adaptive fixed_width (width 0.5), integer and pretty (bin_count 4) binnings derived from N=2 symbolic data values, through h1 and h2 (same column on both axes): every value lies inside a bin - total = N, underflow = overflow = 0 (1D) / missed = 0 (2D)"
+
+    def instances(self, tier):
+        for method in ("fixed_width", "integer", "pretty"):
+            for dim in (1, 2):
+                yield f"derived-{method}-{dim}d", dict(method=method, dim=dim)
+
+    def declare(self, cx, p):
+        x = {"v": cx.reals("v", 2)}
+        if cx.sym:
+            v = [cx.t(i) for i in x["v"]]
+            if p["method"] == "pretty":
+                from .c07 import _no_ties
+
+                cx.assume(v[0] >= -20, v[1] <= 20, v[1] - v[0] >= 2, v[1] - v[0] <= 16)
+                _no_ties(cx, (v[1] - v[0]) / 4)
+            else:
+                cx.assume(*[z3.And(t >= -4, t <= 4) for t in v])
+        return x
+
+    def witness_hints(self, cx, p, x):
+        return [[z3.ToReal(z3.ToInt(cx.t(v) * 4)) == cx.t(v) * 4 for v in x["v"]]]
+
+    def drive(self, E, p, x):
+        np = E.np
+        fac = E.mod("physt._facade")
+        data = np.asarray(list(x["v"]), dtype=float)
+        kw = {"fixed_width": dict(bin_width=0.5), "integer": {}, "pretty": dict(bin_count=4)}[p["method"]]
+        if p["dim"] == 1:
+            h = E.attempt(fac.h1, data, p["method"], **kw)
+            if isinstance(h, Raised):
+                return {"op_raised": h}
+            return {"total": h.total, "under": h.underflow, "over": h.overflow, "bins": h.bins.tolist(), "adaptive": h.is_adaptive()}
+        h = E.attempt(fac.h2, data, data, p["method"], **kw)
+        if isinstance(h, Raised):
+            return {"op_raised": h}
+        return {"total": h.total, "missed": h.missed, "bins": h.bins[0].tolist(), "bins1": h.bins[1].tolist(), "adaptive": h.is_adaptive()}
+
+    def oracle(self, cx, p, x, obs):
+        yield "no_exception", obs.get("raised") is None and obs.get("op_raised") is None
+        if obs.get("raised") is not None or obs.get("op_raised") is not None:
+            return
+        v = [cx.t(i) for i in x["v"]]
+        yield "all_values_counted", cx.eq(obs["total"], z3.IntVal(2))
+        if p["dim"] == 1:
+            yield "nothing_outside", z3.And(cx.eq(obs["under"], 0), cx.eq(obs["over"], 0))
+        else:
+            yield "nothing_missed", cx.eq(obs["missed"], 0)
+        for key in ("bins", "bins1"):
+            if key not in obs:
+                continue
+            B = obs[key]
+            yield f"has_bins[{key}]", len(B) > 0
+            if not B:
+                continue
+            first, last = cx.t(B[0][0]), cx.t(B[-1][1])
+            closed = p["dim"] == 1   # 1D histograms close their last bin; ND axes of fixed-width binnings do not
+            yield f"range_covers_data[{key}]", z3.And([z3.And(first <= t, (t <= last) if closed else (t < last)) for t in v])
+            yield f"contiguous_equal_width[{key}]", z3.And([cx.t(B[j][1]) == cx.t(B[j + 1][0]) for j in range(len(B) - 1)] + [cx.t(b[1]) - cx.t(b[0]) == cx.t(B[0][1]) - cx.t(B[0][0]) for b in B])
+        yield "not_adaptive", obs["adaptive"] is False
